@@ -364,6 +364,30 @@ def run_c20_rank(case, fail):
     if order != [int(v) for v in ranking][:len(order)] or len(order) != b:
         fail("C20.single_annotator_wrapper_ignores_the_ranking", f"samples of the selected pairs in order {order}, the wrapped strategy ranks {ranking} "
                                                                  f"(mode {mode}, batch {b}, one annotator per sample)")
+        return
+    if mode != 2 or a < 2:
+        return
+    # several annotators per sample with explicit annotator performances that include the extreme values 0.0 and 1.0: every annotator is available
+    # for every candidate, so the pairs must come sample by sample in the wrapped strategy's order, k pairs per sample (the last block may be cut)
+    k = int(rs.randint(2, a + 1))
+    perf = np.concatenate([[0.0, 1.0], rs.uniform(0.1, 0.9, size=a - 2)])[rs.permutation(a)]
+    b2 = min(len(rows) * k, 2 * k + 1)
+    try:
+        ranking2 = np.asarray(make_strategy(name, case["sseed"]).query(X, agg(Y), candidates=np.array(rows), batch_size=min(b2, len(rows)), **kw())).ravel().tolist()
+    except Exception:
+        return
+    expected = np.repeat(ranking2, k)[:b2].tolist()
+    for ws in range(3):
+        try:
+            qs = SingleAnnotatorWrapper(make_strategy(name, case["sseed"]), y_aggregate=agg, random_state=case["sseed"] + ws)
+            q2 = np.asarray(qs.query(X, Y, candidates=cand, annotators=None, batch_size=b2, n_annotators_per_sample=k, A_perf=perf, **kw()))
+        except Exception:
+            return
+        got = [int(v) for v in q2[:, 0]]
+        if got != [int(v) for v in expected]:
+            fail("C20.single_annotator_wrapper_leaves_a_sample_before_its_annotators_are_used", f"samples of the selected pairs {got}, expected {expected}: the wrapped "
+                 f"strategy ranks {ranking2}, {k} annotators per sample, annotator performances {np.round(perf, 2).tolist()} (wrapper seed +{ws})")
+            return
 
 
 # ---------------------------------------------------------------------------------------------------------- C07
